@@ -173,7 +173,7 @@ func (f *freshnessCalculator) CalculateFreshness(
 	if reqMaxStaleStr, ok := reqCC.MaxStale(); ok {
 		if reqMaxStaleStr == "" {
 			maxStale = maxDuration // accept any staleness
-		} else if reqMaxStale, valid := reqMaxStaleStr.Value(); valid && reqMaxStale >= 0 {
+		} else if reqMaxStale, valid := RawDeltaSeconds(ParseQuotedString(string(reqMaxStaleStr))).Value(); valid && reqMaxStale >= 0 {
 			maxStale = reqMaxStale
 		}
 	}
